@@ -145,7 +145,19 @@ def _has_unsorted_children(case) -> bool:
 
 
 def reuse_strategy(tier):
-    return st.fixed_dictionaries({"root": st.sampled_from(["module", "dfg", "custom"]), "mut": st.one_of(store.reuse_mutations(30 if tier == "quick" else 50), store.holes_mutations(), store.burst_mutations())})
+    return st.fixed_dictionaries({"root": st.sampled_from(["module", "dfg", "custom"]), "mut": st.one_of(store.reuse_mutations(30 if tier == "quick" else 50), store.holes_mutations(), store.burst_mutations(), store.desc_mutations())})
+
+
+def check_op_doc(case) -> list[Fail]:
+    """A module holding one generated operation of any kind with any attribute values."""
+    import hugr.ops as hops
+    from hugr.hugr import Hugr
+
+    from vlib.interp import mk_op
+
+    h = Hugr(hops.Module())
+    h.add_node(mk_op(case["op"]), h.root, metadata=case.get("meta"))
+    return roundtrip_fails(h)
 
 
 def order_strategy(tier):
@@ -157,6 +169,8 @@ REQUIRES = {"children-not-in-index-order": _has_unsorted_children}
 SUBS = [
     Sub("programs", check, strategy=prog_strategy, nontrivial=nontrivial, classes=classes, n_quick=300, n_thorough=2000, sample_ok=lambda c: len(json.dumps(c)) < 3000),
     Sub("raw", check, fuzz_runs=1000, strategy=raw_strategy, nontrivial=nontrivial, classes=classes, n_quick=300, n_thorough=2000),
+    Sub("ops-in-document", check_op_doc, strategy=lambda tier: st.fixed_dictionaries({"op": __import__("vlib.asts", fromlist=["x"]).op_asts(2), "meta": store.META}), nontrivial=lambda c: True,
+        classes=lambda c: [c["op"]["k"]], n_quick=400, n_thorough=4000),
     Sub("order-ports", check, strategy=order_strategy, nontrivial=nontrivial, classes=classes, n_quick=150, n_thorough=1000),
     Sub("index-reuse", check, fuzz_runs=1000, strategy=reuse_strategy, nontrivial=nontrivial, classes=classes, n_quick=250, n_thorough=1500),
 ]
